@@ -649,6 +649,11 @@ def random_case(rng):
                 lines.append("reg B %d %d %d %d %s %s" % (t, code, rl, seed, etag, other))
                 info[t][4], info[t][5], info[t][7] = seed, etag, other
                 kinds.add("stray-other-etag")
+            if rng.random() < 0.08:
+                # a stray block far behind the body, with a number that needs three option bytes (never appended, never final)
+                num, more = rng.choice([4095, 4096, 65535, 65536, 1048575]), 1
+                off, plen = num * u, 0
+                kinds.add("stray-high-num")
             blk = "%d/%d/%d" % (szx, num, more)
             lines.append("inject %s %d %d %s %s %s %s %s %s %d %d %d" % (
                 dst, code, t, blk if bt == 1 else "-", blk if bt == 2 else "-", str(ln) if bt == 1 else "-", str(ln) if bt == 2 else "-",
@@ -845,6 +850,7 @@ def explore(ctx, art):
     glue_level(ctx, art, "TestC04UdpDial", "udpdial")
     glue_level(ctx, art, "TestC04Discover", "discover")
     glue_level(ctx, art, "TestC04Pool", "pool")
+    glue_level(ctx, art, "TestC04Long", "long")
     if ctx.tier == "thorough":
         conn_level(ctx, art)
         with common.Lock():
